@@ -128,7 +128,11 @@ theorem C11_frame_storage (s : WL) (op : Op)
 /-! ## Membership queries -/
 
 /-- "Membership queries answer true exactly for stored members" — flat kinds (`HasMember`) and the immutable
-whitelist (`IncludesAddress`): the answer is `true` iff the address is a key of the stored map. -/
+whitelist (`IncludesAddress`): the answer is `true` iff the address is a key of the stored map.
+RESTATES THE MODEL'S DEFINITION (holds for an arbitrary `s`: unfolding of `queryHasMember` + `hasM_iff`); that the Rust
+query reads that map is validated by the harness only (monitor `has-member-ne-stored`). The same applies to
+`C11_has_member_iff_tiered` (relative to the free parameter `active`), `C11_stage_member_iff`
+(`stage-member-ne-stored`) and `C11_all_stage_member_iff` (`all-stage-member-ne-stored`). -/
 theorem C11_has_member_iff_flat (s : WL) (active : Option Nat) (a : Nat) (ht : s.kind.isTiered = false) (b : Bool)
     (h : queryHasMember s active a = some b) : (b = true ↔ a ∈ keys s.members) := by
   unfold queryHasMember at h
@@ -246,7 +250,9 @@ theorem C11_member_query_error (s : WL) (active : Option Nat) (a : Nat) (h : s.k
   unfold queryMember
   rcases h with h | h <;> simp [h]
 
-/-- one page of the `Members` query never shows anything that is not stored, and never more than the page limit -/
+/-- one page of the `Members` query never shows anything that is not stored, never more than the crate's MAXIMUM page
+size, and never more than the crate's DEFAULT page size when no limit is given. (For an explicit `limit = some n` see
+`C11_members_page_le_limit` right below.) -/
 theorem C11_members_page_sound (s : WL) (stage : Nat) (after : Option Nat) (limit : Option Nat) (l : List Member)
     (h : queryMembers s stage after limit = some l) :
     (∀ x ∈ l, x ∈ mapOf s stage) ∧ l.length ≤ s.kind.pageMax ∧ (limit = none → l.length ≤ s.kind.pageDefault) := by
@@ -262,6 +268,20 @@ theorem C11_members_page_sound (s : WL) (stage : Nat) (after : Option Nat) (limi
       refine ⟨fun x hx => (List.mem_filter.mp (List.mem_of_mem_take hx)).1, ?_, ?_⟩
       · rw [List.length_take]; omega
       · intro hl; subst hl; rw [List.length_take]; simp only [Option.getD_none]; omega
+    · exact absurd h (by simp)
+
+/-- one page of the `Members` query with an explicit `limit = some n` never shows more than `n` entries (the remaining
+case of "at most the page limit"; added by the round-4 statement audit) -/
+theorem C11_members_page_le_limit (s : WL) (stage : Nat) (after : Option Nat) (n : Nat) (l : List Member)
+    (h : queryMembers s stage after (some n) = some l) : l.length ≤ n := by
+  unfold queryMembers at h
+  dsimp only at h
+  split at h
+  · cases h
+    rw [List.length_take]; simp only [Option.getD_some]; omega
+  · split at h
+    · cases h
+      rw [List.length_take]; simp only [Option.getD_some]; omega
     · exact absurd h (by simp)
 
 /-- Paging the `Members` query to exhaustion (any page size ≥ 1) enumerates exactly the stored map, in key order —
